@@ -58,6 +58,11 @@ def project_send(ops):
                 out.append("OCloseRx")
             elif r["fd"] == tx and tx is not None:
                 out.append("OCloseTx")
+    # the two ends of the dedicated pair are released when send() returns: their order relative to each other is
+    # irrelevant to every property (trace equivalence of DESIGN.md 4.2): canonical order rx, tx
+    for i in range(len(out) - 1):
+        if out[i] == "OCloseTx" and out[i + 1] == "OCloseRx":
+            out[i], out[i + 1] = "OCloseRx", "OCloseTx"
     return out
 
 
